@@ -323,6 +323,51 @@ def run_harness(binpath, args, out_path, timeout=1800, env=None):
     return p.returncode, p.stdout, p.stderr[-4000:], cases, time.time() - t0
 
 
+# ----------------------------------------------------------------------------- source drift
+
+def repo_drift(prop):
+    """How far /repo's working tree is from the commit the models were last validated against
+    (/verif/repo.pin, written by tools/pin_repo.sh after every accepted change of /repo):
+      0 = identical, 1 = some source file under crates/ differs, 2 = a file anchored by the property differs.
+    Used only to decide how many cases the quick tier generates (more when the code moved: a changed
+    tree is where a regression can be); never to skip anything."""
+    info = {"level": 0, "changed": []}
+    try:
+        pin = open(os.path.join(ROOT, "repo.pin")).read().split()[0]
+        repo = os.environ.get("GV_REPO_DIR", "/repo")   # GV_REPO_DIR: only tools/seedtest.sh sets it
+        rc, out = sh("git -C %s diff --name-only %s -- crates ; git -C %s ls-files --others --exclude-standard -- crates" % (repo, pin, repo), timeout=60)
+        if rc != 0:
+            info["note"] = "git diff against the pinned commit failed: " + out[-200:]
+            info["level"] = 1
+            return info
+        ch = sorted({l.strip() for l in out.split("\n") if l.strip().endswith(".rs") or l.strip().endswith(".toml")})
+        info["changed"] = ch[:20]
+        if ch:
+            info["level"] = 1
+            anchors = set()
+            for l in open(os.path.join(ROOT, "properties.jsonl")):
+                p = json.loads(l)
+                if p["id"] == prop:
+                    anchors = set(p.get("anchors", {}).get("files", []))
+            if any(c in anchors for c in ch):
+                info["level"] = 2
+    except Exception as e:  # no pin / no git: behave as on the unchanged tree, but say so
+        info["note"] = "drift not determined: %r" % (e,)
+    return info
+
+
+def scaled(prop, tier, quick_n, thorough_n, chk=None):
+    """Number of generated cases: quick_n on the pinned tree; more in the quick tier when /repo has moved
+    (x3 for any source change, x8 — at most thorough_n — when an anchored file changed)."""
+    if tier != "quick":
+        return thorough_n
+    d = repo_drift(prop)
+    if chk is not None:
+        chk.coverage["repo_drift"] = d
+    f = {0: 1, 1: 3, 2: 8}[d["level"]]
+    return min(thorough_n, quick_n * f)
+
+
 # ----------------------------------------------------------------------------- Coq evaluation
 
 _EVAL_HDR = """Set Printing Width 100000.
